@@ -23,7 +23,7 @@ RULE = ("For each of the exported optimizer classes Hypothesis draws parameter d
         "case.")
 ASSUMPTIONS = ["the config class of an optimizer is <Optimizer>Config as frozen in baselines/fixture_configs.json",
                "a run that raises must raise alike on both sides (its cause is C06's business)"]
-BUDGET = {"quick": 80, "thorough": 500}
+BUDGET = {"quick": 60, "thorough": 400}
 RUNS_EVERY = 2
 
 
@@ -58,25 +58,38 @@ def _mutate(draw, kw, params):
     return kw, kind
 
 
+SCENARIOS = ("mutated", "mutated", "mutated", "valid", "valid", "run_fresh", "run_after_set", "run_after_constructor",
+             "run_after_set_and_run", "run_after_set_and_run", "run_after_constructor_and_run",
+             "run_after_constructor_and_run")
+
+
 @st.composite
 def case(draw, optimizer, tier):
     params = registry.load()[optimizer]["params"]
-    cfg = draw(strategies.config_spec(optimizer, max_cycles=(1, 5), perturb=0.35, reverse_lists=True))
+    # the scenario is drawn explicitly (a uniform choice), so that every path gets its share of the cases
+    scenario = draw(st.sampled_from(SCENARIOS))
+    if scenario.endswith("_and_run") and draw(st.booleans()):
+        # a long second run that ends by the cycle budget: state left over by the first run gets time to matter
+        cfg = draw(strategies.config_spec(optimizer, max_cycles=(15, 40), min_cycles=15, stopping=False, perturb=0.2,
+                                          pop_mults=(1,)))
+    else:
+        cfg = draw(strategies.config_spec(optimizer, max_cycles=(1, 8), perturb=0.35, reverse_lists=True))
     kw = dict(params)
     kw.update(cfg)                      # early_stopping stays a plain dict / None
-    payload = {"optimizer": optimizer, "dict": kw, "mutation": None}
-    if draw(st.integers(0, 3)) == 0:
+    payload = {"optimizer": optimizer, "dict": kw, "mutation": None, "scenario": scenario}
+    if scenario == "mutated":
         payload["dict"], payload["mutation"] = _mutate(draw, kw, params)
-    payload["with_run"] = draw(st.integers(0, RUNS_EVERY - 1)) == 0
+    payload["with_run"] = scenario.startswith("run_")
     payload["previous"] = None
     payload["previous_how"] = None
-    if draw(st.integers(0, 2)) > 0:
+    if "after" in scenario or (scenario in ("mutated", "valid") and draw(st.booleans())):
         prev = dict(params)
-        prev.update(draw(strategies.config_spec(optimizer, max_cycles=(1, 5), perturb=0.5, reverse_lists=True)))
+        prev.update(draw(strategies.config_spec(optimizer, max_cycles=(1, 8), perturb=0.5, reverse_lists=True)))
         payload["previous"] = prev
-        # how the instance got its earlier configuration: set on a bare instance, given to the constructor, or set
-        # and then used for a run (so that anything computed lazily from it has been computed)
-        payload["previous_how"] = draw(st.sampled_from(["set", "constructor", "set_and_run", "constructor_and_run"]))
+        # how the instance got its earlier configuration: set on a bare instance, given to the constructor, and in
+        # the *_and_run scenarios used for a run first (so that anything computed lazily from it has been computed)
+        payload["previous_how"] = (scenario[len("run_after_"):] if "after" in scenario
+                                   else draw(st.sampled_from(["set", "constructor"])))
     payload["task"] = draw(strategies.task_spec(encodings=("cont_multi", "cont_multi", "mixed", "binary"), max_dim=4))
     payload["pre_noise"] = draw(st.integers(0, 10 ** 6))
     return payload
@@ -198,7 +211,8 @@ def run_shard(shard, tier, seed):
             return
         vio, nt = r
         ctx.case(payload, nt, ["mutation:" + str(payload["mutation"]), "with_run" if payload["with_run"] else "no_run",
-                               ("after_previous:" + str(payload.get("previous_how"))) if payload["previous"] else "fresh_instance"])
+                               ("after_previous:" + str(payload.get("previous_how"))) if payload["previous"] else "fresh_instance",
+                               "scenario:" + str(payload.get("scenario"))])
         ctx.judge(payload, vio)
 
     runner.drive(ctx, case(shard["optimizer"], tier), one, shard["n"], seed)
